@@ -23,7 +23,11 @@ Inductive cop :=
 | CUpdate (ps : list (uuid * doc)) (err : bool) (resp : list (uuid * N)) (after : list oshard)
 | CDelete (ids : list uuid) (err : bool) (resp : list (uuid * N)) (after : list oshard)
 (* direct: for vector queries, every shard's full answer to the unpaged request, asked at the shard *)
-| CSearch (rq : request) (out : qout) (direct : list (list row)).
+| CSearch (rq : request) (out : qout) (direct : list (list row))
+(* a collection that lives in ONE shard, every server up, no sort keys, no paging: the cluster hands the shard's
+   answer through unchanged -- same points in the same order (for a composite of a ranking sub-query and a
+   filter: ranked points first, then the points only the filter matched, C06) *)
+| CPass (rq : request) (out : qout) (shard_rows : list row).
 
 Inductive c17case :=
 | CHist (nservers : N) (sc : schema) (maxsize maxlimit : N) (ops : list cop)
@@ -225,6 +229,13 @@ Fixpoint judge_ops (sc : schema) (maxsize maxlimit : N) (i : N) (closed : option
           let '(c, ref') := judge_write sc maxsize closed shs ref (BDelete ids) ids err resp after in
           continue c closed after ref'
       | CSearch r o direct => continue (judge_search sc maxlimit closed shs ref r o direct) closed shs ref
+      | CPass r o srows =>
+          continue (match o with
+                    | QError _ => 108
+                    | QRows rows =>
+                        if list_eqb (fun x y => bytes_eqb (r_id x) (r_id y) && (r_hybrid x =? r_hybrid y)) rows srows
+                        then 0 else 109
+                    end) closed shs ref
       end
   end.
 
